@@ -33,33 +33,38 @@ Record obj := mkObj {
   strong : bool;         (* state._strong_obj is the object *)
   expired : bool;        (* state.expired *)
   pend : option Z;       (* 'val' in committed_state: the current (unflushed) value of val *)
+  pendw : option Z;      (* 'w' in committed_state: the current (unflushed) value of the second column w *)
+  in_val : bool;         (* 'val' in state.dict (loaded or set, not expired) *)
   delflag : bool;        (* state._deleted *)
   link : option nat      (* unmapped attribute obj.buddy *)
 }.
 
-Definition dead0 : obj := mkObj false 0 false false false false false false false false false None false None.
+Definition dead0 : obj := mkObj false 0 false false false false false false false false false None None false false None.
 
-Definition set_alive (x : bool) (o : obj) : obj := mkObj x (pk o) (haskey o) (sess o) (in_new o) (in_del o) (in_map o) (in_mod o) (modified o) (strong o) (expired o) (pend o) (delflag o) (link o).
-Definition set_haskey (x : bool) (o : obj) : obj := mkObj (alive o) (pk o) x (sess o) (in_new o) (in_del o) (in_map o) (in_mod o) (modified o) (strong o) (expired o) (pend o) (delflag o) (link o).
-Definition set_sess (x : bool) (o : obj) : obj := mkObj (alive o) (pk o) (haskey o) x (in_new o) (in_del o) (in_map o) (in_mod o) (modified o) (strong o) (expired o) (pend o) (delflag o) (link o).
-Definition set_in_new (x : bool) (o : obj) : obj := mkObj (alive o) (pk o) (haskey o) (sess o) x (in_del o) (in_map o) (in_mod o) (modified o) (strong o) (expired o) (pend o) (delflag o) (link o).
-Definition set_in_del (x : bool) (o : obj) : obj := mkObj (alive o) (pk o) (haskey o) (sess o) (in_new o) x (in_map o) (in_mod o) (modified o) (strong o) (expired o) (pend o) (delflag o) (link o).
-Definition set_in_map (x : bool) (o : obj) : obj := mkObj (alive o) (pk o) (haskey o) (sess o) (in_new o) (in_del o) x (in_mod o) (modified o) (strong o) (expired o) (pend o) (delflag o) (link o).
-Definition set_in_mod (x : bool) (o : obj) : obj := mkObj (alive o) (pk o) (haskey o) (sess o) (in_new o) (in_del o) (in_map o) x (modified o) (strong o) (expired o) (pend o) (delflag o) (link o).
-Definition set_modified (x : bool) (o : obj) : obj := mkObj (alive o) (pk o) (haskey o) (sess o) (in_new o) (in_del o) (in_map o) (in_mod o) x (strong o) (expired o) (pend o) (delflag o) (link o).
-Definition set_strong (x : bool) (o : obj) : obj := mkObj (alive o) (pk o) (haskey o) (sess o) (in_new o) (in_del o) (in_map o) (in_mod o) (modified o) x (expired o) (pend o) (delflag o) (link o).
-Definition set_expired (x : bool) (o : obj) : obj := mkObj (alive o) (pk o) (haskey o) (sess o) (in_new o) (in_del o) (in_map o) (in_mod o) (modified o) (strong o) x (pend o) (delflag o) (link o).
-Definition set_pend (x : option Z) (o : obj) : obj := mkObj (alive o) (pk o) (haskey o) (sess o) (in_new o) (in_del o) (in_map o) (in_mod o) (modified o) (strong o) (expired o) x (delflag o) (link o).
-Definition set_delflag (x : bool) (o : obj) : obj := mkObj (alive o) (pk o) (haskey o) (sess o) (in_new o) (in_del o) (in_map o) (in_mod o) (modified o) (strong o) (expired o) (pend o) x (link o).
-Definition set_link (x : option nat) (o : obj) : obj := mkObj (alive o) (pk o) (haskey o) (sess o) (in_new o) (in_del o) (in_map o) (in_mod o) (modified o) (strong o) (expired o) (pend o) (delflag o) x.
+Definition set_alive (x : bool) (o : obj) : obj := mkObj x (pk o) (haskey o) (sess o) (in_new o) (in_del o) (in_map o) (in_mod o) (modified o) (strong o) (expired o) (pend o) (pendw o) (in_val o) (delflag o) (link o).
+Definition set_haskey (x : bool) (o : obj) : obj := mkObj (alive o) (pk o) x (sess o) (in_new o) (in_del o) (in_map o) (in_mod o) (modified o) (strong o) (expired o) (pend o) (pendw o) (in_val o) (delflag o) (link o).
+Definition set_sess (x : bool) (o : obj) : obj := mkObj (alive o) (pk o) (haskey o) x (in_new o) (in_del o) (in_map o) (in_mod o) (modified o) (strong o) (expired o) (pend o) (pendw o) (in_val o) (delflag o) (link o).
+Definition set_in_new (x : bool) (o : obj) : obj := mkObj (alive o) (pk o) (haskey o) (sess o) x (in_del o) (in_map o) (in_mod o) (modified o) (strong o) (expired o) (pend o) (pendw o) (in_val o) (delflag o) (link o).
+Definition set_in_del (x : bool) (o : obj) : obj := mkObj (alive o) (pk o) (haskey o) (sess o) (in_new o) x (in_map o) (in_mod o) (modified o) (strong o) (expired o) (pend o) (pendw o) (in_val o) (delflag o) (link o).
+Definition set_in_map (x : bool) (o : obj) : obj := mkObj (alive o) (pk o) (haskey o) (sess o) (in_new o) (in_del o) x (in_mod o) (modified o) (strong o) (expired o) (pend o) (pendw o) (in_val o) (delflag o) (link o).
+Definition set_in_mod (x : bool) (o : obj) : obj := mkObj (alive o) (pk o) (haskey o) (sess o) (in_new o) (in_del o) (in_map o) x (modified o) (strong o) (expired o) (pend o) (pendw o) (in_val o) (delflag o) (link o).
+Definition set_modified (x : bool) (o : obj) : obj := mkObj (alive o) (pk o) (haskey o) (sess o) (in_new o) (in_del o) (in_map o) (in_mod o) x (strong o) (expired o) (pend o) (pendw o) (in_val o) (delflag o) (link o).
+Definition set_strong (x : bool) (o : obj) : obj := mkObj (alive o) (pk o) (haskey o) (sess o) (in_new o) (in_del o) (in_map o) (in_mod o) (modified o) x (expired o) (pend o) (pendw o) (in_val o) (delflag o) (link o).
+Definition set_expired (x : bool) (o : obj) : obj := mkObj (alive o) (pk o) (haskey o) (sess o) (in_new o) (in_del o) (in_map o) (in_mod o) (modified o) (strong o) x (pend o) (pendw o) (in_val o) (delflag o) (link o).
+Definition set_pend (x : option Z) (o : obj) : obj := mkObj (alive o) (pk o) (haskey o) (sess o) (in_new o) (in_del o) (in_map o) (in_mod o) (modified o) (strong o) (expired o) x (pendw o) (in_val o) (delflag o) (link o).
+Definition set_pendw (x : option Z) (o : obj) : obj := mkObj (alive o) (pk o) (haskey o) (sess o) (in_new o) (in_del o) (in_map o) (in_mod o) (modified o) (strong o) (expired o) (pend o) x (in_val o) (delflag o) (link o).
+Definition set_in_val (x : bool) (o : obj) : obj := mkObj (alive o) (pk o) (haskey o) (sess o) (in_new o) (in_del o) (in_map o) (in_mod o) (modified o) (strong o) (expired o) (pend o) (pendw o) x (delflag o) (link o).
+Definition set_delflag (x : bool) (o : obj) : obj := mkObj (alive o) (pk o) (haskey o) (sess o) (in_new o) (in_del o) (in_map o) (in_mod o) (modified o) (strong o) (expired o) (pend o) (pendw o) (in_val o) x (link o).
+Definition set_link (x : option nat) (o : obj) : obj := mkObj (alive o) (pk o) (haskey o) (sess o) (in_new o) (in_del o) (in_map o) (in_mod o) (modified o) (strong o) (expired o) (pend o) (pendw o) (in_val o) (delflag o) x.
 
 (* ---------------------------------------------------------------- database: one table t(id, val) *)
-Definition dbt := list (N * Z).
-Definition db_get (k : N) (d : dbt) : option Z :=
-  match find (fun p => N.eqb (fst p) k) d with Some p => Some (snd p) | None => None end.
+Definition row := (Z * Z)%type.      (* (val, w) *)
+Definition dbt := list (N * row).
+Definition db_get (k : N) (d : dbt) : option row :=
+  match find (fun p : N * row => N.eqb (fst p) k) d with Some p => Some (snd p) | None => None end.
 Definition db_has (k : N) (d : dbt) : bool := match db_get k d with Some _ => true | None => false end.
-Definition db_del (k : N) (d : dbt) : dbt := filter (fun p => negb (N.eqb (fst p) k)) d.
-Definition db_set (k : N) (v : Z) (d : dbt) : dbt := (k, v) :: db_del k d.
+Definition db_del (k : N) (d : dbt) : dbt := filter (fun p : N * row => negb (N.eqb (fst p) k)) d.
+Definition db_set (k : N) (v : row) (d : dbt) : dbt := (k, v) :: db_del k d.
 
 (* ---------------------------------------------------------------- session + heap *)
 Record st := mkSt {
@@ -137,10 +142,11 @@ Fixpoint rc_iter (n : nat) (s : st) : st :=
 Definition rc_collect (s : st) : st := rc_iter (S (nobj s)) s.
 
 (* ---------------------------------------------------------------- orm/state.py *)
-(* InstanceState._modified_event for attribute val, new value v *)
+(* InstanceState._modified_event for attribute val (w = false) or w (w = true), new value v; also reached
+   through attributes.flag_modified (is_userland: the strong reference is established all the same) *)
 Definition modev_cond (ob : obj) : bool := (sess ob && negb (strong ob)) || negb (modified ob).
-Definition modified_event (v : Z) (ob : obj) : obj :=
-  let ob1 := set_pend (Some v) ob in
+Definition modified_event (w : bool) (v : Z) (ob : obj) : obj :=
+  let ob1 := if w then set_pendw (Some v) ob else set_in_val true (set_pend (Some v) ob) in
   if modev_cond ob then
     let ob2 := set_modified true ob1 in
     let ob3 := if in_map ob then set_in_mod true ob2 else ob2 in
@@ -149,32 +155,44 @@ Definition modified_event (v : Z) (ob : obj) : obj :=
 
 (* InstanceState._commit_all_states, instance_dict = session.identity_map *)
 Definition commit_all (ob : obj) : obj :=
-  let ob1 := set_pend None ob in
+  let ob1 := set_pendw None (set_pend None ob) in
   let ob2 := if modified ob then set_in_mod false ob1 else ob1 in
   set_strong false (set_expired false (set_modified false ob2)).
 
 (* InstanceState._expire, modified_set = identity_map._modified *)
 Definition expire_obj (ob : obj) : obj :=
-  let ob1 := set_expired true ob in
-  let ob2 := if modified ob then set_modified false (set_pend None (set_in_mod false ob1)) else ob1 in
+  let ob1 := set_in_val false (set_expired true ob) in
+  let ob2 := if modified ob then set_modified false (set_pendw None (set_pend None (set_in_mod false ob1))) else ob1 in
   set_strong false ob2.
 
+(* InstanceState._expire_attributes(dict_, [key]): the value and the pending history of that attribute go;
+   modified, _strong_obj and the membership in identity_map._modified stay *)
+Definition expire_attr (w : bool) (ob : obj) : obj :=
+  if w then set_pendw None ob else set_in_val false (set_pend None ob).
+
 (* ---------------------------------------------------------------- orm/session.py: flush *)
-Inductive dbact := ANone | AIns (k : N) (v : Z) | AUpd (k : N) (v : Z) | ADel (k : N).
+Inductive dbact := ANone | AIns (k : N) (r : row) | AUpd (k : N) (v w : option Z) | ADel (k : N).
 
 Definition NULL : Z := (-1)%Z.
 (* the statement the unit of work emits for one state *)
 Definition act_of (ob : obj) : dbact :=
   if in_del ob then ADel (pk ob)
-  else if in_new ob then AIns (pk ob) (match pend ob with Some v => v | None => NULL end)
-  else if in_mod ob && in_map ob then match pend ob with Some v => AUpd (pk ob) v | None => ANone end
+  else if in_new ob then AIns (pk ob) (match pend ob with Some v => v | None => NULL end,
+                                       match pendw ob with Some v => v | None => NULL end)
+  else if in_mod ob && in_map ob then
+    match pend ob, pendw ob with None, None => ANone | v, w => AUpd (pk ob) v w end
   else ANone.
+Definition merge (v w : option Z) (old : row) : row :=
+  (match v with Some x => x | None => fst old end, match w with Some x => x | None => snd old end).
 Definition apply_act (a : dbact) (df : dbt * bool) : dbt * bool :=
   let (d, f) := df in
   match a with
   | ANone => (d, f)
-  | AIns k v => if db_has k d then (d, true) else (db_set k v d, f)       (* IntegrityError *)
-  | AUpd k v => if db_has k d then (db_set k v d, f) else (d, true)       (* StaleDataError *)
+  | AIns k r => if db_has k d then (d, true) else (db_set k r d, f)       (* IntegrityError *)
+  | AUpd k v w => match db_get k d with
+                  | Some old => (db_set k (merge v w old) d, f)
+                  | None => (d, true)                                      (* StaleDataError *)
+                  end
   | ADel k => (db_del k d, f)                                             (* 0 rows matched: warning only *)
   end.
 Definition flush_db (s : st) : dbt * bool :=
@@ -188,7 +206,8 @@ Definition flush_obj (ob : obj) : obj :=
     set_delflag true (set_in_del false ob1)
   else if in_new ob || (in_mod ob && in_map ob) then
     (* _register_persistent: key, identity_map.replace (+ _manage_incoming_state), _commit_all_states, _new.pop *)
-    let ob1 := set_haskey true ob in
+    (* an expired object is refreshed by the UPDATE's primary-key lookup: val is in state.dict again *)
+    let ob1 := set_in_val (in_val ob || expired ob) (set_haskey true ob) in
     let ob2 := if in_map ob1 then ob1 else set_in_map true (if modified ob1 then set_in_mod true ob1 else ob1) in
     set_in_new false (commit_all ob2)
   else if in_mod ob then commit_all ob      (* "history events accumulated on previously clean instances" *)
@@ -216,6 +235,9 @@ Inductive op :=
 | Load (i : nat) (k : N)   (* slot i = session.get(T, k) *)
 | New (i : nat)            (* slot i = T(id = fresh, val = fresh); session.add(slot i) *)
 | SetV (i : nat)           (* slot i . val = fresh value *)
+| SetW (i : nat)           (* slot i . w = fresh value *)
+| Mut (i : nat)            (* in-place change of val: state.dict['val'] = fresh; flag_modified(slot i, 'val') *)
+| ExpireAttr (i : nat) (w : bool)   (* session.expire(slot i, ['val' | 'w']) if persistent *)
 | Drop (i : nat)           (* slot i = None *)
 | Gc                       (* gc.collect() *)
 | Flush
@@ -228,12 +250,12 @@ Inductive op :=
 Definition attach_cond (ob : obj) : bool := modified ob && negb (strong ob).
 Definition new_obj (s : st) : obj :=
   (* constructor sets id and val (no session: modified only), then _save_impl + _after_attach *)
-  let ob1 := modified_event (next_val s) (mkObj true (next_pk s) false false false false false false false false false None false None) in
+  let ob1 := modified_event false (next_val s) (mkObj true (next_pk s) false false false false false false false false false None None false false None) in
   let ob2 := set_sess true (set_in_new true ob1) in
   if attach_cond ob2 then set_strong true ob2 else ob2.
 Definition loaded_obj (k : N) : obj :=
   (* loading._instance: _add_unpresent, session_id, _commit_all *)
-  mkObj true k true true false false true false false false false None false None.
+  mkObj true k true true false false true false false false false None None true false None.
 Definition alloc (ob : obj) (s : st) : st :=
   mkSt (fun x => if Nat.eqb x (nobj s) then ob else heap s x) (S (nobj s)) (slots s) (local s) (db s)
        (next_pk s) (next_val s) (failed s).
@@ -246,7 +268,7 @@ Definition load (i : nat) (k : N) (s : st) : st :=
       if expired (heap s o) then
         (* refresh of an expired hit: autoflush, then SELECT; the row is gone if the flush deleted it *)
         let s1 := set_local None (rc_collect (flush (set_local (Some o) s))) in
-        if in_map (heap s1 o) then slot_set i (Some o) (upd o (set_expired false) s1)
+        if in_map (heap s1 o) then slot_set i (Some o) (upd o (fun ob => set_in_val true (set_expired false ob)) s1)
         else slot_set i None s1
       else slot_set i (Some o) s
   | None =>
@@ -266,7 +288,22 @@ Definition step (o : op) (s : st) : st * Z :=
   | SetV i =>
       match slot_get s i with
       | None => (s, 1%Z)
-      | Some o => (bump_val (upd o (modified_event (next_val s)) s), 0%Z)
+      | Some o => (bump_val (upd o (modified_event false (next_val s)) s), 0%Z)
+      end
+  | SetW i =>
+      match slot_get s i with
+      | None => (s, 1%Z)
+      | Some o => (bump_val (upd o (modified_event true (next_val s)) s), 0%Z)
+      end
+  | Mut i =>
+      match slot_get s i with
+      | None => (s, 1%Z)
+      | Some o => if in_val (heap s o) then (bump_val (upd o (modified_event false (next_val s)) s), 0%Z) else (s, 2%Z)
+      end
+  | ExpireAttr i w =>
+      match slot_get s i with
+      | None => (s, 1%Z)
+      | Some o => if persistent (heap s o) then (upd o (expire_attr w) s, 0%Z) else (s, 2%Z)
       end
   | Drop i => (slot_set i None s, 0%Z)
   | Gc => (collect (oids s) s, 0%Z)
@@ -301,6 +338,6 @@ Definition step_cpy (o : op) (s : st) : st * Z :=
 
 Definition init (rows : dbt) (nslots : nat) (npk : N) : st :=
   mkSt (fun _ => dead0) 0 (repeat None nslots) None rows npk 100%Z false.
-Definition max_pk (rows : dbt) : N := fold_right (fun p m => N.max (fst p) m) 0%N rows.
+Definition max_pk (rows : dbt) : N := fold_right (fun (p : N * row) m => N.max (fst p) m) 0%N rows.
 (* a fresh Session on a table with the given rows; new primary keys start above the existing ones *)
 Definition start (rows : dbt) (nslots : nat) : st := init rows nslots (N.succ (max_pk rows)).
